@@ -1,0 +1,167 @@
+//go:build verif
+
+package store
+
+// Contracts for the govc verification-condition generator (/verif/govc).
+// This file is comment-only and guarded by the build tag `verif`.
+
+// ---- ghost view of the edges table -----------------------------------------------------------------------
+// isEdge(db, down, up): there is a row (up, down) in table edges; edgeTomb(db, down, up): the value of its
+// tombstone point as Points.Find reports it; rank: a height function that exists iff the graph is acyclic.
+// The SQL boundary is (*DbSqlite).edges for the query used by (*DbSqlite).up (trusted contract below).
+
+//@ model func isEdge(db *DbSqlite, down string, up string) bool
+//@ model func edgeTomb(db *DbSqlite, down string, up string) float64
+//@ model func rank(db *DbSqlite, id string) int
+//@ model func dbFailed(d *sql.DB) bool
+//@ spec func liveEdge(db *DbSqlite, down string, up string) bool = isEdge(db, down, up) && fmodf(edgeTomb(db, down, up), 2.0) == 0.0
+//@ spec func acyclic(db *DbSqlite) bool = forall d string, u string :: isEdge(db, d, u) ==> 0 <= rank(db, u) && rank(db, u) < rank(db, d)
+
+//@ extern store.(*DbSqlite).edges(sdb, tx, query, args)
+//@   fresh res0
+//@   modifies state(sdb.db)
+//@   ensures dbFailed(sdb.db) == (old(dbFailed(sdb.db)) || res1 != nil)
+//@   ensures res1 == nil && query == "SELECT * FROM edges WHERE down=?" && len(args) == 1 && typeIs(args[0], string) ==> (forall k int :: 0 <= k && k < len(res0) ==> res0[k].Down == dyn(args[0], string) && isEdge(sdb, dyn(args[0], string), res0[k].Up) && bits64(findValue(res0[k].Points, "tombstone", "")) == bits64(edgeTomb(sdb, dyn(args[0], string), res0[k].Up)))
+//@   ensures res1 == nil && query == "SELECT * FROM edges WHERE down=?" && len(args) == 1 && typeIs(args[0], string) ==> (forall u string :: isEdge(sdb, dyn(args[0], string), u) ==> (exists k int :: 0 <= k && k < len(res0) && res0[k].Up == u))
+
+//@ spec func wanted(db *DbSqlite, id string, u string, includeDeleted bool) bool = (includeDeleted && isEdge(db, id, u)) || (!includeDeleted && liveEdge(db, id, u))
+//@ func (*DbSqlite).up
+//@   props C06
+//@   local sdb *store.DbSqlite#1
+//@   local id string#1
+//@   local includeDeleted bool#1
+//@   local ups []string#1
+//@   local edges []data.Edge#1
+//@   requires sdb != nil
+//@   fresh res0
+//@   modifies state(sdb.db)
+//@   ensures [C06] dbFailed(sdb.db) == (old(dbFailed(sdb.db)) || res1 != nil)
+//@   ensures [C06] only-parents: res1 == nil ==> (forall k int :: 0 <= k && k < len(res0) ==> wanted(sdb, id, res0[k], includeDeleted))
+//@   ensures [C06] all-parents: res1 == nil ==> (forall u string :: wanted(sdb, id, u, includeDeleted) ==> (exists k int :: 0 <= k && k < len(res0) && res0[k] == u))
+//@   loop 1:
+//@     invariant -1 <= rangeindex && rangeindex < len(edges) || rangeindex == -1
+//@     invariant sinceLoop(ups)
+//@     invariant forall k int :: 0 <= k && k < len(ups) ==> wanted(sdb, id, ups[k], includeDeleted)
+//@     invariant forall j int :: 0 <= j && j <= rangeindex && wanted(sdb, id, edges[j].Up, includeDeleted) ==> (exists k int :: 0 <= k && k < len(ups) && ups[k] == edges[j].Up)
+//@     modifies ups
+//@     decreases len(edges) - rangeindex
+
+// ---- rebroadcast (store.go) ------------------------------------------------------------------------------
+// The rebroadcast stream is the log of client.SendPoints calls on the store's connection: entry i is
+// (pubSubj(nc, i), pubPts(nc, i)). busFailed / dbFailed record whether a publish or an edge query has reported
+// an error since the ghost state was created (the code logs such errors and goes on).
+//@ model func pubN(nc *nats.Conn) int
+//@ model func pubSubj(nc *nats.Conn, i int) string
+//@ model func pubPts(nc *nats.Conn, i int) []data.Point
+//@ model func busFailed(nc *nats.Conn) bool
+//@ spec func pubKept(nc *nats.Conn) bool = pubN(nc) >= old(pubN(nc)) && (old(busFailed(nc)) ==> busFailed(nc)) && (forall i int :: i < old(pubN(nc)) ==> pubSubj(nc, i) == old(pubSubj(nc, i)) && sameSlice(pubPts(nc, i), old(pubPts(nc, i))))
+//@ spec func sameButFilledTime(a data.Point, b data.Point) bool = a.Type == b.Type && a.Key == b.Key && bits64(a.Value) == bits64(b.Value) && a.Text == b.Text && a.Tombstone == b.Tombstone && a.Origin == b.Origin && sameSlice(a.Data, b.Data) && (ns(b.Time) != -6795364578871345152 || !isUTC(b.Time) ==> a.Time == b.Time)
+
+// Trusted: SendPoints encodes and publishes the batch on the subject; it fills zero times in place first.
+//@ extern client.SendPoints(nc, subject, points, ack)
+//@   modifies state(nc), points
+//@   ensures pubKept(nc) && pubN(nc) == old(pubN(nc)) + 1 && pubSubj(nc, old(pubN(nc))) == subject && sameSlice(pubPts(nc, old(pubN(nc))), points)
+//@   ensures busFailed(nc) == (old(busFailed(nc)) || res0 != nil)
+//@   ensures forall k int :: 0 <= k && k < len(points) ==> sameButFilledTime(points[k], old(points[k]))
+
+// reachL(db, x, a): a is x or an ancestor of x through non-deleted edges; reachA: through any edges. "none" is
+// the sentinel at which the walk stops. (Fixpoint equations; on an acyclic graph they have one solution.)
+//@ model func reachL(db *DbSqlite, x string, a string) bool
+//@ model func reachA(db *DbSqlite, x string, a string) bool
+//@ axiom reachL_def: forall db *DbSqlite, x string, a string :: reachL(db, x, a) <==> (a == x || (x != "none" && (exists p string :: liveEdge(db, x, p) && reachL(db, p, a))))
+//@ axiom reachA_def: forall db *DbSqlite, x string, a string :: reachA(db, x, a) <==> (a == x || (x != "none" && (exists p string :: isEdge(db, x, p) && reachA(db, p, a))))
+
+//@ axiom reachL_step: forall db *DbSqlite, x string, p string, a string :: triggers(reachL(db, p, a), isEdge(db, x, p)) ==> (x != "none" && liveEdge(db, x, p) && reachL(db, p, a) ==> reachL(db, x, a))
+//@ axiom reachA_step: forall db *DbSqlite, x string, p string, a string :: triggers(reachA(db, p, a), isEdge(db, x, p)) ==> (x != "none" && isEdge(db, x, p) && reachA(db, p, a) ==> reachA(db, x, a))
+//@ spec func toldL(st *Store, lo int, hi int, a string, nodeID string, points []data.Point) bool = exists i int :: lo <= i && i < hi && pubSubj(st.nc, i) == sprintf("up.%v.%v", a, nodeID) && sameSlice(pubPts(st.nc, i), points)
+//@ func (*Store).processPointsUpstream
+//@   props C06
+//@   local st *store.Store#1
+//@   local upNodeID string#1
+//@   local nodeID string#2
+//@   local points data.Points#1
+//@   local ups []string#1
+//@   requires st != nil && st.db != nil && acyclic(st.db)
+//@   modifies state(st.nc), state(st.db.db), points
+//@   decreases rank(st.db, upNodeID)
+//@   assert [C06] self-reach: reachL(st.db, upNodeID, upNodeID) at "client.SendPoints(st.nc, sub, points, false)"
+//@   ensures [C06] log-kept: pubKept(st.nc) && (old(dbFailed(st.db.db)) ==> dbFailed(st.db.db))
+//@   ensures [C06] every-live-ancestor: !busFailed(st.nc) && !dbFailed(st.db.db) ==> (forall a string :: reachL(st.db, upNodeID, a) ==> toldL(st, old(pubN(st.nc)), pubN(st.nc), a, nodeID, points))
+//@   ensures [C06] only-live-ancestors: forall i int :: old(pubN(st.nc)) <= i && i < pubN(st.nc) ==> sameSlice(pubPts(st.nc, i), points) && (exists a string :: reachL(st.db, upNodeID, a) && pubSubj(st.nc, i) == sprintf("up.%v.%v", a, nodeID))
+//@   ensures [C06] same-points: forall k int :: 0 <= k && k < len(points) ==> sameButFilledTime(points[k], old(points[k]))
+//@   loop 1:
+//@     invariant -1 <= rangeindex && rangeindex < len(ups) || rangeindex == -1
+//@     invariant pubKept(st.nc) && (old(dbFailed(st.db.db)) ==> dbFailed(st.db.db)) && pubN(st.nc) > old(pubN(st.nc))
+//@     invariant pubSubj(st.nc, old(pubN(st.nc))) == sprintf("up.%v.%v", upNodeID, nodeID) && sameSlice(pubPts(st.nc, old(pubN(st.nc))), points)
+//@     invariant !busFailed(st.nc) && !dbFailed(st.db.db) ==> (forall j int, a string :: 0 <= j && j <= rangeindex && reachL(st.db, ups[j], a) ==> toldL(st, old(pubN(st.nc)), pubN(st.nc), a, nodeID, points))
+//@     invariant forall i int :: old(pubN(st.nc)) < i && i < pubN(st.nc) ==> sameSlice(pubPts(st.nc, i), points) && (exists a string :: reachL(st.db, upNodeID, a) && pubSubj(st.nc, i) == sprintf("up.%v.%v", a, nodeID))
+//@     invariant forall k int :: 0 <= k && k < len(points) ==> sameButFilledTime(points[k], old(points[k]))
+//@     modifies state(st.nc), state(st.db.db), points
+//@     decreases len(ups) - rangeindex
+
+//@ spec func toldA(st *Store, lo int, hi int, a string, nodeID string, parentID string, points []data.Point) bool = exists i int :: lo <= i && i < hi && pubSubj(st.nc, i) == sprintf("up.%v.%v.%v", a, nodeID, parentID) && sameSlice(pubPts(st.nc, i), points)
+//@ func (*Store).processEdgePointsUpstream
+//@   props C06
+//@   local st *store.Store#1
+//@   local upNodeID string#1
+//@   local nodeID string#2
+//@   local parentID string#3
+//@   local points data.Points#1
+//@   local ups []string#1
+//@   requires st != nil && st.db != nil && acyclic(st.db)
+//@   modifies state(st.nc), state(st.db.db), points
+//@   decreases rank(st.db, upNodeID)
+//@   assert [C06] self-reach: reachA(st.db, upNodeID, upNodeID) at "client.SendPoints(st.nc, sub, points, false)"
+//@   ensures [C06] log-kept: pubKept(st.nc) && (old(dbFailed(st.db.db)) ==> dbFailed(st.db.db))
+//@   ensures [C06] every-ancestor: !busFailed(st.nc) && !dbFailed(st.db.db) ==> (forall a string :: reachA(st.db, upNodeID, a) ==> toldA(st, old(pubN(st.nc)), pubN(st.nc), a, nodeID, parentID, points))
+//@   ensures [C06] only-ancestors: forall i int :: old(pubN(st.nc)) <= i && i < pubN(st.nc) ==> sameSlice(pubPts(st.nc, i), points) && (exists a string :: reachA(st.db, upNodeID, a) && pubSubj(st.nc, i) == sprintf("up.%v.%v.%v", a, nodeID, parentID))
+//@   ensures [C06] same-points: forall k int :: 0 <= k && k < len(points) ==> sameButFilledTime(points[k], old(points[k]))
+//@   loop 1:
+//@     invariant -1 <= rangeindex && rangeindex < len(ups) || rangeindex == -1
+//@     invariant pubKept(st.nc) && (old(dbFailed(st.db.db)) ==> dbFailed(st.db.db)) && pubN(st.nc) > old(pubN(st.nc))
+//@     invariant pubSubj(st.nc, old(pubN(st.nc))) == sprintf("up.%v.%v.%v", upNodeID, nodeID, parentID) && sameSlice(pubPts(st.nc, old(pubN(st.nc))), points)
+//@     invariant !busFailed(st.nc) && !dbFailed(st.db.db) ==> (forall j int, a string :: 0 <= j && j <= rangeindex && reachA(st.db, ups[j], a) ==> toldA(st, old(pubN(st.nc)), pubN(st.nc), a, nodeID, parentID, points))
+//@     invariant forall i int :: old(pubN(st.nc)) < i && i < pubN(st.nc) ==> sameSlice(pubPts(st.nc, i), points) && (exists a string :: reachA(st.db, upNodeID, a) && pubSubj(st.nc, i) == sprintf("up.%v.%v.%v", a, nodeID, parentID))
+//@     invariant forall k int :: 0 <= k && k < len(points) ==> sameButFilledTime(points[k], old(points[k]))
+//@     modifies state(st.nc), state(st.db.db), points
+//@     decreases len(ups) - rangeindex
+
+// ---- the two write handlers --------------------------------------------------------------------------------
+// Trusted for this property: the database writes themselves (their own contracts belong to C01/C03/C05).
+// nodePoints does not touch the edges table; edgePoints may change it and is assumed to keep it acyclic (C05).
+//@ extern store.(*DbSqlite).nodePoints(sdb, id, points)
+//@ extern store.(*DbSqlite).edgePoints(sdb, nodeID, parentID, points)
+//@   modifies state(sdb)
+//@   ensures acyclic(sdb)
+//@ extern client.(*Metric).AddSample(m, s)
+//@ extern time.(Duration).Milliseconds(d)
+//@ func (*Store).reply
+//@   props C06
+//@   local st *store.Store#1
+//@   requires st != nil
+
+//@ spec func batchOf(pts []data.Point, b []byte) bool = len(pts) == pbN(b) && (forall k int :: 0 <= k && k < len(pts) ==> sameButFilledTime(pts[k], pbPt(b, k)))
+//@ spec func nodeOf(msg *nats.Msg) string = splitPart(msg.Subject, ".", 1)
+//@ spec func parentOf(msg *nats.Msg) string = splitPart(msg.Subject, ".", 2)
+//@ func (*Store).handleNodePoints
+//@   props C06
+//@   local st *store.Store#1
+//@   local msg *nats.Msg#1
+//@   local err error#1
+//@   requires st != nil && st.db != nil && msg != nil && acyclic(st.db)
+//@   modifies state(st.nc), state(st.db.db)
+//@   ensures [C06] log-kept: pubKept(st.nc)
+//@   ensures [C06] rebroadcast-batch-is-received-batch: forall i int :: old(pubN(st.nc)) <= i && i < pubN(st.nc) ==> batchOf(pubPts(st.nc, i), msg.Data) && (exists a string :: reachL(st.db, nodeOf(msg), a) && pubSubj(st.nc, i) == sprintf("up.%v.%v", a, nodeOf(msg)))
+//@   ensures [C06] accepted-reaches-every-live-ancestor: pubN(st.nc) > old(pubN(st.nc)) && !busFailed(st.nc) && !dbFailed(st.db.db) ==> (forall a string :: reachL(st.db, nodeOf(msg), a) ==> (exists i int :: old(pubN(st.nc)) <= i && i < pubN(st.nc) && pubSubj(st.nc, i) == sprintf("up.%v.%v", a, nodeOf(msg))))
+//@   assert [C06] accepted-is-rebroadcast: err == nil at "st.processPointsUpstream(nodeID, nodeID, points)"
+//@ func (*Store).handleEdgePoints
+//@   props C06, C05
+//@   local st *store.Store#1
+//@   local msg *nats.Msg#1
+//@   local err error#1
+//@   requires st != nil && st.db != nil && msg != nil
+//@   modifies state(st.nc), state(st.db.db), state(st.db)
+//@   ensures [C06] log-kept: pubKept(st.nc)
+//@   ensures [C06] rebroadcast-batch-is-received-batch: forall i int :: old(pubN(st.nc)) <= i && i < pubN(st.nc) ==> batchOf(pubPts(st.nc, i), msg.Data) && (exists a string :: reachA(st.db, nodeOf(msg), a) && pubSubj(st.nc, i) == sprintf("up.%v.%v.%v", a, nodeOf(msg), parentOf(msg)))
+//@   ensures [C06] accepted-reaches-every-ancestor: pubN(st.nc) > old(pubN(st.nc)) && !busFailed(st.nc) && !dbFailed(st.db.db) ==> (forall a string :: reachA(st.db, nodeOf(msg), a) ==> (exists i int :: old(pubN(st.nc)) <= i && i < pubN(st.nc) && pubSubj(st.nc, i) == sprintf("up.%v.%v.%v", a, nodeOf(msg), parentOf(msg))))
+//@   assert [C05, C06] only-accepted-is-rebroadcast: err == nil at "st.processEdgePointsUpstream(nodeID, nodeID, parentID, points)"
